@@ -18,6 +18,8 @@ package jwt
 import (
 	"encoding/base64"
 	"encoding/json"
+
+	"shanhu.io/g/errcode"
 )
 
 func encodeSegmentBytes(bs []byte) string {
@@ -25,7 +27,16 @@ func encodeSegmentBytes(bs []byte) string {
 }
 
 func decodeSegmentBytes(s string) ([]byte, error) {
-	return base64.RawURLEncoding.DecodeString(s)
+	bs, err := base64.RawURLEncoding.DecodeString(s)
+	if err != nil {
+		return nil, err
+	}
+	// The decoder skips line breaks and ignores the unused low bits of the
+	// last character; a token segment must be the canonical encoding.
+	if encodeSegmentBytes(bs) != s {
+		return nil, errcode.InvalidArgf("not canonical base64url")
+	}
+	return bs, nil
 }
 
 func encodeSegment(v interface{}) (string, error) {
